@@ -30,6 +30,10 @@ func Validate(ctx *core.Ctx, cases []*Case, label string) (Stats, error) {
 			"go":   map[string]interface{}{"err": c.Go.Err, "out": c.Go.Out},
 			"js":   map[string]interface{}{"err": c.JSObs.Err, "out": c.JSObs.Out},
 		}
+		if c.Direct != nil {
+			line["direct"] = true
+			line["cls"] = c.Direct
+		}
 		b, err := json.Marshal(line)
 		if err != nil {
 			return Stats{}, err
